@@ -52,8 +52,17 @@ func pickAddr(r *rand.Rand, withMaps bool) uint64 {
 		}
 	}
 	m := ex[r.Intn(len(ex))]
-	return m.start + 0x100 + uint64(r.Intn(0x100))*4
+	a := m.start + 0x100 + uint64(r.Intn(0x100))*4
+	if m.start == 0x400000 && r.Intn(2) == 0 {
+		a += hugeLen // beyond the part that printMaps may list as a huge page
+	}
+	return a
 }
+
+// hugeLen is the size of the leading part of the main binary that printMaps may list as a separate
+// '/anon_hugepage' entry (text remapped onto huge pages): documented to be dropped, with the main
+// mapping put back to 0x400000 / offset 0.
+const hugeLen = 0x20000
 
 func printMaps(r *rand.Rand, sb *strings.Builder, sentinel string) string {
 	form := "proc"
@@ -77,6 +86,10 @@ func printMaps(r *rand.Rand, sb *strings.Builder, sentinel string) string {
 				pieces = append(pieces, pc)
 			}
 			form += fmt.Sprintf("+split%d", k)
+		} else if m.start == 0x400000 && form == "proc" && r.Intn(4) == 0 {
+			pieces = []mp{{start: m.start, end: m.start + hugeLen, off: 0, file: "/anon_hugepage" + []string{"", " (deleted)"}[r.Intn(2)], exec: true},
+				{start: m.start + hugeLen, end: m.end, off: hugeLen, file: m.file, exec: true}}
+			form += "+hugepage"
 		}
 		for _, m := range pieces {
 			if strings.HasPrefix(form, "proc") {
